@@ -11,6 +11,7 @@ import DialsModel.Model.ParseIO
 import DialsModel.Model.TfIO
 import DialsModel.Model.WrapIO
 import DialsModel.Model.FlagSrcIO
+import DialsModel.Model.DecodeIO
 
 open Dials Dials.Proto
 
@@ -62,6 +63,7 @@ def handle (ss : Session) (line : String) : Session × String :=
   | "wr" :: rest => (ss, Wrap.handleWr rest)
   | "bk" :: rest => (ss, Wrap.handleBk rest)
   | "fs" :: rest => (ss, FlagSrc.handleFs rest)
+  | "dc" :: rest => (ss, Decode.handleDc rest)
   | "rt" :: rest =>
     let (st, out) := Runtime.handleRt ss.rt rest
     ({ ss with rt := st }, (out.replace "\n" " "))
